@@ -4,6 +4,8 @@ C04  In-progress executions survive an engine crash and restart.
 (i)  crash BETWEEN two scheduler steps at every point of every baseline run, restart with the same instance id through the real
      start-up path (the broker requeues what was unacknowledged, redelivered=True): the terminal status/output/error must equal the
      crash-free run's, no worker may see a correlation id twice, and a reply around the restart must reach its task;
+(iii) two instances consume the shared queue (shared Redis store); either of them dies at every between-step point and is restarted with its own
+     instance id: same oracle; a crash of the instance that holds nothing must change nothing.
 (ii) crash INSIDE a handler right after its k-th broker operation (the fake channel raises a BaseException that passes through the
      engine's catch-alls): every started execution must still reach a terminal status once the world is quiescent and virtual time
      has passed its time-out plus the back-stop period.
@@ -20,11 +22,11 @@ ENGINE = "simworld"
 LEVEL = "fault_enumeration"
 RULE = ("case = (scenario, crash point, schedule after the restart): scenarios = sequential Pass/Task/Wait/Choice chains, Parallel and Map with Task/Wait branches, Retry in "
         "back-off, synchronous child execution; JSON-file store (records lost) and simulated Redis (records kept); EVERY between-step crash point of the baseline run and "
-        "EVERY engine broker operation as an intra-handler crash point; canonical and random schedules after the restart; thorough adds pairs of crashes. non-trivial = "
+        "EVERY engine broker operation as an intra-handler crash point; canonical and random schedules after the restart; the same with two instances on the shared queue of which either dies. non-trivial = "
         "crash point at which >=1 message is unacknowledged or >=1 request is outstanding; distinct by (scenario, crash point, schedule hash)")
 ASSUMPTIONS = ["a duplicated RUNNING notification after a crash, lost history (JSON store) and the re-created record's input/startDate are not part of the statement",
                "intra-handler crashes are judged for no-loss only", "the broker requeues unacknowledged messages at the head in original order with redelivered=True"]
-FLOORS = {"evaluations": 500, "crash_points_between_steps": 250, "crash_points_inside_handlers": 200, "nontrivial": 300, "baselines": 12, "store:redis": 100, "outcomes_compared": 250}
+FLOORS = {"crash_points_with_two_instances": 300, "two_instances:crashed_instance_held_something": 50, "evaluations": 500, "crash_points_between_steps": 250, "crash_points_inside_handlers": 200, "nontrivial": 300, "baselines": 12, "store:redis": 100, "outcomes_compared": 250}
 SHARDS = {"quick": 16, "thorough": 16}
 TECHNIQUE = "crash-point enumeration with differential oracle against the crash-free run + bounded-progress monitor + worker request log"
 LEVEL_TEXT = ("Every between-step crash point and every engine broker operation of each baseline run is turned into a crash + restart through the real start-up path; outcome "
@@ -97,7 +99,7 @@ def mask_cause(x):
     return x
 
 
-def crash_hook(k, restart_delay=0.0):
+def crash_hook(k, restart_delay=0.0, iid="i1"):
     """Crash + restart between steps: after the k-th scheduler step (k = 0: before the first)."""
     def install(run):
         w = run.world
@@ -105,14 +107,14 @@ def crash_hook(k, restart_delay=0.0):
 
         def do_crash():
             state["done"] = True
-            eng = w.engines["i1"]
-            state["facts"] = dict(unacked=sum(len(ch.unacked) for ch in eng.conn.channels), pending=len(eng.td.pending_requests),
+            eng = w.engines[iid]
+            state["facts"] = dict(instance=iid, unacked=sum(len(ch.unacked) for ch in eng.conn.channels), pending=len(eng.td.pending_requests),
                                   timers=[getattr(t.cb, "__qualname__", "?") for t in eng.conn.timers if not w.is_housekeeping(t)],
                                   unacked_msgs=[dict(mid=m.props.message_id, q=qn) for ch in eng.conn.channels for (qn, m) in ch.unacked.values()])
-            w.crash_engine("i1")
+            w.crash_engine(iid)
             if restart_delay:
                 w.clock.now += restart_delay
-            w.start_engine("i1")
+            w.start_engine(iid)
         run.crash_state = state
         if k == 0:
             do_crash()
@@ -191,6 +193,26 @@ def classify_between(run, base, sig, inside=False):
     return None
 
 
+def taken_over(run):
+    """Events of the SHARED queue that were delivered to one instance, left unacknowledged by its death and redelivered to ANOTHER instance:
+    -> [(message id, first instance, second instance, request already sent by the first one?)]"""
+    w = run.world
+    crash_step = w.crashes[0]["step"] if w.crashes else None
+    if crash_step is None:
+        return []
+    first, requested, out = {}, set(), []
+    for r in w.broker.oplog:
+        conn = r["conn"] or ""
+        if r["op"] == "basic_publish" and conn.startswith("engine:") and r["props"].get("reply_to") and r["step"] <= crash_step:
+            requested.add(C_base(r["props"]["correlation_id"]))
+        if r["op"] == "deliver" and conn.startswith("engine:") and r["queue"] == EVENTQ:
+            mid = r.get("message_id")
+            if mid in first and first[mid] != conn and r.get("redelivered"):
+                out.append((mid, first[mid], conn, mid in requested))
+            first.setdefault(mid, conn)
+    return out
+
+
 def C_base(cid):
     for suf in (".waitForTaskToken", ".invoke"):
         if cid and cid.endswith(suf):
@@ -233,6 +255,24 @@ def run(ctx):
                 if not ctx.mine(i):
                     continue
                 inside(ctx, scn, name, store, j, base_sig)
+    # (iii) two instances on the shared queue, either of them dies
+    for si, (name, asl, child) in enumerate(corpus(ctx.rng("corpus"), n_scn)):
+        scn = make_scn(asl, child, "redis")
+        scn["config"] = dict(scn["config"], instances=["i1", "i2"])
+        base = S.execute(scn, seed=ctx.seed)
+        try:
+            base_sig, n_steps = signature(base), len(base.world.steps)
+            base_ok = not base.error and all(v[0] in ("SUCCEEDED", "FAILED") for v in base_sig.values())
+        finally:
+            S.close(base)
+        if not base_ok:
+            continue
+        for k in range(0, n_steps + 1):
+            for iid in ("i1", "i2"):
+                for s in range(ctx.pick(1, 3)):
+                    i += 1
+                    if ctx.mine(i):
+                        two_instances(ctx, scn, name, k, s, iid, base_sig)
 
 
 def between(ctx, scn, name, store, k, s, base_sig):
@@ -265,6 +305,52 @@ def between(ctx, scn, name, store, k, s, base_sig):
             ctx.violation("execution-never-terminates-after-crash", wit(dict(arn=arn)), classify_between(run, base_sig, sig))
         if ctx.counters["evaluations"] % 97 == 1:
             ctx.sample(dict(scenario=name, store=store, crash_after_step=k, crash_facts=facts, baseline=base_sig, with_crash=sig))
+    finally:
+        S.close(run)
+
+
+def two_instances(ctx, scn, name, k, s, iid, base_sig):
+    """Two instances on the shared queue (shared Redis store), one of them dies and is restarted with its own instance id.  A crash of the
+    instance that holds nothing of the execution must change nothing at all; a crash of the owner must preserve the outcome."""
+    pol = None if s == 0 else (lambda w, r=random.Random("2i-%s-%d-%d" % (name, k, s)): make_random(r))
+    run = S.execute(scn, policy=pol, seed=ctx.seed, hooks=[crash_hook(k, restart_delay=[0.0, 0.5, 2.0][s % 3], iid=iid)])
+    try:
+        ctx.evaluation(); ctx.count("crash_points_with_two_instances"); ctx.count("store:redis")
+        facts = run.crash_state.get("facts") or {}
+        key = [name, "two-instances", iid, k, _sched.schedule_hash(run)]
+        ctx.distinct("schedules", key)
+        held = bool(facts.get("unacked") or facts.get("pending"))
+        ctx.count("two_instances:crashed_instance_held_something" if held else "two_instances:crashed_instance_held_nothing")
+        if held:
+            ctx.nontrivial(key)
+        sig = signature(run)
+        ctx.count("outcomes_compared")
+        over = taken_over(run)
+        if over:
+            ctx.count("two_instances:shared_queue_event_taken_over_by_the_other_instance")
+        wit = lambda extra: S.witness_of(run, dict(extra, scenario_name=name, store="redis", instances=["i1", "i2"], crashed=iid, crash_after_step=k, schedule_no=s, baseline=base_sig,
+                                                   with_crash=sig, crash_facts=facts, taken_over=over))
+        if run.error:
+            ctx.violation("exception-escaped-the-engine-after-restart", wit({}), None)
+        if sig != base_sig:
+            mech = None
+            if any(sent for (_, _, _, sent) in over) and all(v[0] == "NONE" or v[2] == "States.Timeout" or v == base_sig.get(x) for x, v in sig.items()):
+                # the request went out with the dead instance's reply queue; the instance that took the event over waits for a reply that is
+                # routed to the other one
+                mech = "shared-queue-event-taken-over-by-another-instance-after-its-request-was-sent"
+            elif held:
+                mech = classify_between(run, base_sig, sig)
+            lost = [x for x, v in sig.items() if v[0] == "NONE"] + [x for x in base_sig if x not in sig]
+            ctx.violation("execution-lost-after-crash" if lost else "outcome-differs-from-crash-free-run", wit({}), mech)
+        seen = {}
+        for fn, rs in run.requests.items():
+            for r in rs:
+                seen[r["cid"]] = seen.get(r["cid"], 0) + 1
+        dup = {c: n for c, n in seen.items() if n > 1}
+        if dup:
+            ctx.violation("task-requested-again-after-restart", wit(dict(duplicates=dup)), None)
+        for arn in getattr(run, "never_terminated", []) or []:
+            ctx.violation("execution-never-terminates-after-crash", wit(dict(arn=arn)), None)
     finally:
         S.close(run)
 
@@ -308,7 +394,9 @@ def witnesses(ctx):
 def replay(ctx, doc):
     w = doc["witness"]
     print(json.dumps({k: w.get(k) for k in ("scenario_name", "store", "crash_after_step", "crash_after_engine_op", "op", "baseline", "with_crash", "crash_facts")}, indent=1))
-    if "crash_after_step" in w:
+    if w.get("instances"):
+        two_instances(ctx, w["scenario"], w["scenario_name"], w["crash_after_step"], w.get("schedule_no", 0), w["crashed"], w["baseline"])
+    elif "crash_after_step" in w:
         between(ctx, w["scenario"], w["scenario_name"], w["store"], w["crash_after_step"], w.get("schedule_no", 0), w["baseline"])
     else:
         inside(ctx, w["scenario"], w["scenario_name"], w["store"], w["crash_after_engine_op"], w["baseline"])
